@@ -1,5 +1,6 @@
 import CalicoVerif.Util.Proto
 import CalicoVerif.Model.C37
+import CalicoVerif.Model.C37Ident
 import CalicoVerif.Gen.C37
 /-! Driver for C37 (byte strings are `x<hex>` tokens):
   `new`                                   -> `ok`   (clears the hash table)
@@ -10,6 +11,10 @@ import CalicoVerif.Gen.C37
   `ep <tw|fw|sm|th|fh|thfw|fhfw|arp> <xiface> <max>` -> same
   `grp <in|out> <xuid> …`                 -> `<xname>`
   `ipset <4|6> <xnameprefix> <xid>`       -> `<xname>`
+  `h3 <xbytes> <xhash>`                   -> `ok`   (one point of base64url(sha3-224(·)))
+  `pid <xkind> <xns> <xname>`             -> `<x PolicyID.ID()> <x PolicyID.String()>`
+  `pol2 <in|out> <nft 0|1> <xkind> <xns> <xname>` -> policy chain name, ID() computed by the model
+  `grp2 <in|out> <xselector> (<xkind> <xns> <xname>)*` -> group chain name, pre-hash string computed by the model
 -/
 open CalicoVerif CalicoVerif.C37 CalicoVerif.Proto
 
@@ -71,7 +76,45 @@ def maxFor (nft : String) : Option Int :=
   if nft = "1" then some Gen.maxChainNameLengthNftables
   else if nft = "0" then some Gen.maxChainNameLengthIptables else none
 
-def step (t : Table) (line : String) : Table × String :=
+def parsePols : List String → Option (List PolicyID)
+  | [] => some []
+  | k :: ns :: n :: rest => do
+    let k ← parseX k
+    let ns ← parseX ns
+    let n ← parseX n
+    let r ← parsePols rest
+    pure ({ name := n, namespace_ := ns, kind := k } :: r)
+  | _ => none
+
+/-- Ops on the identity strings; `t3` is the table of base64url(sha3-224(·)). -/
+def stepIdent (t t3 : Table) (ws : List String) : Option String :=
+  match ws with
+  | ["pid", k, ns, n] =>
+    match parseX k, parseX ns, parseX n with
+    | some k, some ns, some n =>
+      let p : PolicyID := { name := n, namespace_ := ns, kind := k }
+      some (showX p.id ++ " " ++ showX p.string)
+    | _, _, _ => some "bad-op"
+  | ["pol2", dir, nft, k, ns, n] =>
+    match (if dir = "in" then some Gen.pfx_PolicyInboundPfx else if dir = "out" then some Gen.pfx_PolicyOutboundPfx else none),
+        maxFor nft, parseX k, parseX ns, parseX n with
+    | some p, some m, some k, some ns, some n =>
+      some (runGLL t p ({ name := n, namespace_ := ns, kind := k } : PolicyID).id m)
+    | _, _, _, _, _ => some "bad-op"
+  | "grp2" :: dir :: sel :: pols =>
+    match (if dir = "in" then some false else if dir = "out" then some true else none), parseX sel, parsePols pols with
+    | some ob, some sel, some ps =>
+      let g : Group := { outbound := ob, selector := sel, policies := ps }
+      if (tlookup t3 g.preHash).isNone then some "nohash"
+      else some (showX (g.chainName (hashOf t3)))
+    | _, _, _ => some "bad-op"
+  | _ => none
+
+structure St where
+  t : Table
+  t3 : Table
+
+def step0 (t : Table) (line : String) : Table × String :=
   match words line with
   | ["new"] => ([], "ok")
   | ["h", a, b] =>
@@ -108,4 +151,16 @@ def step (t : Table) (line : String) : Table × String :=
     | _, _, _ => (t, "bad-op")
   | _ => (t, "bad-op")
 
-def main : IO Unit := run step []
+def step (s : St) (line : String) : St × String :=
+  match words line with
+  | ["new"] => ({ t := [], t3 := [] }, "ok")
+  | ["h3", a, b] =>
+    match parseX a, parseX b with
+    | some k, some v => ({ s with t3 := (k, v) :: s.t3 }, "ok")
+    | _, _ => (s, "bad-op")
+  | ws =>
+    match stepIdent s.t s.t3 ws with
+    | some out => (s, out)
+    | none => let (t', out) := step0 s.t line; ({ s with t := t' }, out)
+
+def main : IO Unit := run step { t := [], t3 := [] }
